@@ -906,6 +906,482 @@ fn run_group(args: &Args, rep: &mut Report, t: &mut Tally, g: &Group, counter: &
     }
 }
 
+// ---------------------------------------------------------------------------------------------
+// channels whose security token has been renewed
+//
+// A renewed channel holds two key sets per direction for a while (those of the previous and of the current
+// token) and picks the one to verify with by the token id the chunk names. The histories below take a real pair
+// through one and two Renew exchanges and present, at every stage, everything that was ever recorded on the wire
+// to both ends, plus chunks secured by foreign senders under every combination of (token id named, keys used).
+// ---------------------------------------------------------------------------------------------
+
+#[derive(Clone, Copy, PartialEq, Debug)]
+enum Step {
+    /// the real OPN Renew exchange with fresh nonces; the server hands out token id + 1
+    Renew,
+    /// the client sends a message under its current token and the server takes it
+    UseC2S,
+    /// the server sends a message under the new token and the client takes it
+    UseS2C,
+    /// the case batch, with the name of the state the pair is in
+    Cases(&'static str),
+}
+
+const HISTORIES: [(&str, &[Step]); 2] = [
+    (
+        "renew-use-renew-use",
+        &[
+            Step::Cases("opened"),
+            Step::Renew,
+            Step::Cases("renewed-once|new-token-unused"),
+            Step::UseC2S,
+            Step::Cases("renewed-once|new-token-used-by-client-only"),
+            Step::UseS2C,
+            Step::Cases("renewed-once|new-token-used-by-both"),
+            Step::Renew,
+            Step::Cases("renewed-twice|new-token-unused"),
+            Step::UseC2S,
+            Step::UseS2C,
+            Step::Cases("renewed-twice|new-token-used-by-both"),
+        ],
+    ),
+    (
+        "renew-renew-use",
+        &[
+            Step::Renew,
+            Step::Renew,
+            Step::Cases("renewed-twice-back-to-back|new-token-unused"),
+            Step::UseC2S,
+            Step::UseS2C,
+            Step::Cases("renewed-twice-back-to-back|new-token-used-by-both"),
+        ],
+    ),
+];
+
+/// One security token of the pair: its id and the nonces its keys were derived from
+struct Era {
+    token: u32,
+    client_nonce: Vec<u8>,
+    server_nonce: Vec<u8>,
+}
+
+/// A message as it was seen on the wire at some point of the history
+struct Rec {
+    name: &'static str,
+    from_client: bool,
+    /// the token id the chunks name, read from the wire
+    token: u32,
+    secured: Vec<Vec<u8>>,
+    seq: u32,
+}
+
+/// What the harness knows about one end: its current token and the older tokens that the other side has not been
+/// seen to supersede by using a newer one (Part 6 6.7.3: those may still be accepted)
+struct View {
+    current: u32,
+    unsuperseded: Vec<u32>,
+}
+
+fn token_relation(view: &View, issued: &[u32], token: u32) -> &'static str {
+    if token == view.current {
+        "current-token"
+    } else if view.unsuperseded.last() == Some(&token) {
+        "previous-token-still-valid"
+    } else if view.unsuperseded.contains(&token) {
+        "older-token-not-superseded-by-use"
+    } else if issued.contains(&token) {
+        "superseded-token"
+    } else {
+        "never-issued-token"
+    }
+}
+
+/// The Renew exchange as the client's SecureChannelState (begin_/end_issue_or_renew_secure_channel) and the server's
+/// SecureChannelService::open_secure_channel drive it: both OPN messages go through the real send and receive path
+fn renew_pair(g: &Group, pair: &mut Pair, client_nonce: &[u8], server_nonce: &[u8]) -> Result<(), String> {
+    pair.client.set_local_nonce(client_nonce);
+    let req_msg = opn_request(g.mode, true, client_nonce, false);
+    let req_id = pair.next_req;
+    pair.next_req += 1;
+    let seq = pair.c2s_seq;
+    let wire = send_message(&pair.client, seq, req_id, 8196, &req_msg).map_err(|f| format!("client could not send the Renew: {} {}", f.stage, f.status))?;
+    pair.c2s_seq += wire.secured.len() as u32;
+    let (rx, _, decoded) =
+        receive_message(&mut pair.server, seq, &wire.secured).map_err(|f| format!("server could not receive the Renew: {} {}", f.stage, f.status))?;
+    let req = match &decoded {
+        SupportedMessage::OpenSecureChannelRequest(r) => (**r).clone(),
+        _ => return Err("server decoded something else than an OpenSecureChannelRequest".into()),
+    };
+    let channel_id = pair.server.secure_channel_id();
+    let token = pair.server.token_id() + 1;
+    server_accept_open(&mut pair.server, &rx[0], &req, server_nonce, channel_id, token)?;
+    let resp_msg = opn_response(channel_id, token, server_nonce, false);
+    let seq = pair.s2c_seq;
+    let wire = send_message(&pair.server, seq, req_id, 8196, &resp_msg).map_err(|f| format!("server could not send the Renew response: {} {}", f.stage, f.status))?;
+    pair.s2c_seq += wire.secured.len() as u32;
+    let (_, _, decoded) =
+        receive_message(&mut pair.client, seq, &wire.secured).map_err(|f| format!("client could not receive the Renew response: {} {}", f.stage, f.status))?;
+    let resp = match &decoded {
+        SupportedMessage::OpenSecureChannelResponse(r) => (**r).clone(),
+        _ => return Err("client decoded something else than an OpenSecureChannelResponse".into()),
+    };
+    client_accept_open(&mut pair.client, &resp)
+}
+
+/// A sender outside the pair: a real SecureChannel keyed through the setters and derive_keys
+fn keyed_sender(g: &Group, role: Role, channel_id: u32, token: u32, local_nonce: &[u8], remote_nonce: &[u8]) -> SecureChannel {
+    let mut ch = new_channel(role, None, big_options());
+    ch.set_security_policy(g.policy);
+    ch.set_security_mode(g.mode);
+    ch.set_secure_channel_id(channel_id);
+    ch.set_local_nonce(local_nonce);
+    ch.set_remote_nonce(remote_nonce);
+    ch.set_token_id(token);
+    ch.derive_keys();
+    ch
+}
+
+/// Both ends send the messages once more; what names a (sender, token) combination not seen yet is kept
+fn record_sends(pair: &mut Pair, recs: &mut Vec<Rec>, msgs: &[(&'static str, SupportedMessage, usize)]) -> Result<(), String> {
+    for from_client in [true, false] {
+        for (name, msg, cs) in msgs {
+            let (sender, seq) = if from_client { (&pair.client, pair.c2s_seq) } else { (&pair.server, pair.s2c_seq) };
+            let wire = send_message(sender, seq, pair.next_req, *cs, msg).map_err(|f| format!("recording {}: {} {}", name, f.stage, f.status))?;
+            let token = parse_hdr(&wire.secured[0]).and_then(|h| h.token_id).ok_or_else(|| "recorded chunk has no token id".to_string())?;
+            if recs.iter().any(|r| r.name == *name && r.from_client == from_client && r.token == token) {
+                continue;
+            }
+            pair.next_req += 1;
+            if from_client {
+                pair.c2s_seq += wire.secured.len() as u32;
+            } else {
+                pair.s2c_seq += wire.secured.len() as u32;
+            }
+            recs.push(Rec {
+                name,
+                from_client,
+                token,
+                secured: wire.secured,
+                seq,
+            });
+        }
+    }
+    Ok(())
+}
+
+fn covers(only: Option<&Value>, case: &Value) -> bool {
+    match only {
+        None => true,
+        Some(o) => case.as_object().map(|m| m.iter().all(|(k, v)| &o[k] == v)).unwrap_or(false),
+    }
+}
+
+fn run_renewed(args: &Args, rep: &mut Report, t: &mut Tally, g: &Group, counter: &mut usize, only: Option<&Value>) {
+    if let Some(o) = only {
+        if !jstr(o, "kind").starts_with("renewed-") {
+            return;
+        }
+    }
+    let thorough = args.thorough();
+    let base = json!({"policy": pname(g.policy), "mode": mname(g.mode), "cbits": g.cb, "sbits": g.sb, "nonce_seed": g.nonce_seed});
+    let mk_case = |extra: Value| -> Value {
+        let mut c = base.clone();
+        for (k, v) in extra.as_object().unwrap() {
+            c[k] = v.clone();
+        }
+        c
+    };
+    let mine = |counter: &mut usize| -> bool {
+        *counter += 1;
+        only.is_some() || *counter % args.shards == args.shard
+    };
+    let msgs: Vec<(&'static str, SupportedMessage, usize)> = vec![
+        ("msg-small", small_read(3), 8196),
+        ("msg-two-chunks", write_msg(9000), 8196),
+        ("clo", CloseSecureChannelRequest { request_header: request_header(44) }.into(), 8196),
+    ];
+    let n = nonce_len(g.policy);
+    for (hi, (history, steps)) in HISTORIES.iter().enumerate() {
+        if let Some(o) = only {
+            if jstr(o, "history") != *history {
+                continue;
+            }
+        }
+        let mut rng = Rng::new(g.nonce_seed.wrapping_mul(0x9E37_79B9) ^ 0xC08_4E ^ ((hi as u64) << 40));
+        let fail = |rep: &mut Report, what: String| {
+            rep.inconclusive(format!("C08: history {} under {} {}: {}", history, pname(g.policy), mname(g.mode), what));
+        };
+        let mut pair = match catch(|| open_pair(g.ids, g.policy, g.mode, g.cb, g.sb, g.nonce_seed ^ 0x4E00 ^ hi as u64, 8196, big_options())) {
+            Ok(Ok(p)) => p,
+            Ok(Err(e)) => {
+                fail(rep, format!("cannot open: {}", e));
+                continue;
+            }
+            Err(p) => {
+                fail(rep, format!("cannot open: panic {}", p.msg));
+                continue;
+            }
+        };
+        let channel_id = pair.client.secure_channel_id();
+        let mut eras = vec![Era {
+            token: pair.client.token_id(),
+            client_nonce: pair.client.local_nonce().to_vec(),
+            server_nonce: pair.client.remote_nonce().to_vec(),
+        }];
+        let mut client_view = View {
+            current: pair.client.token_id(),
+            unsuperseded: vec![],
+        };
+        let mut server_view = View {
+            current: pair.server.token_id(),
+            unsuperseded: vec![],
+        };
+        let mut recs: Vec<Rec> = Vec::new();
+        if let Err(e) = record_sends(&mut pair, &mut recs, &msgs) {
+            fail(rep, e);
+            continue;
+        }
+        let mut renewals = 0;
+        'steps: for step in steps.iter() {
+            match *step {
+                Step::Renew => {
+                    let (cn, sn) = (rng.bytes(n), rng.bytes(n));
+                    match catch(|| renew_pair(g, &mut pair, &cn, &sn)) {
+                        Ok(Ok(())) => {}
+                        Ok(Err(e)) => {
+                            fail(rep, format!("renewal {}: {}", renewals + 1, e));
+                            break 'steps;
+                        }
+                        Err(p) => {
+                            fail(rep, format!("renewal {}: panic {}", renewals + 1, p.msg));
+                            break 'steps;
+                        }
+                    }
+                    renewals += 1;
+                    let token = pair.client.token_id();
+                    if token != pair.server.token_id() || eras.iter().any(|e| e.token == token) {
+                        fail(rep, "the ends disagree about the renewed token".into());
+                        break 'steps;
+                    }
+                    eras.push(Era {
+                        token,
+                        client_nonce: cn,
+                        server_nonce: sn,
+                    });
+                    for v in [&mut client_view, &mut server_view] {
+                        let old = v.current;
+                        v.unsuperseded.push(old);
+                        v.current = token;
+                    }
+                    rep.count("renewals_performed", 1);
+                    // the client secures with the new token from here on; those chunks are on the wire too
+                    if let Err(e) = record_sends(&mut pair, &mut recs, &msgs) {
+                        fail(rep, e);
+                        break 'steps;
+                    }
+                }
+                Step::UseC2S | Step::UseS2C => {
+                    // the positive control: an untouched chunk of the peer under the current token is taken
+                    let to_server = *step == Step::UseC2S;
+                    let (sender, seq) = if to_server { (&pair.client, pair.c2s_seq) } else { (&pair.server, pair.s2c_seq) };
+                    let wire = match catch(|| send_message(sender, seq, pair.next_req, 8196, &msgs[0].1)) {
+                        Ok(Ok(w)) => w,
+                        _ => {
+                            fail(rep, format!("{:?}: cannot send", step));
+                            break 'steps;
+                        }
+                    };
+                    pair.next_req += 1;
+                    if to_server {
+                        pair.c2s_seq += 1;
+                    } else {
+                        pair.s2c_seq += 1;
+                    }
+                    let view = if to_server { &mut server_view } else { &mut client_view };
+                    let named = parse_hdr(&wire.secured[0]).and_then(|h| h.token_id);
+                    if named != Some(view.current) {
+                        fail(rep, format!("{:?}: the sender names token {:?}, the current one is {}", step, named, view.current));
+                        break 'steps;
+                    }
+                    let recv = if to_server { Recv::PairServer } else { Recv::PairClient };
+                    match deliver(g, &mut pair, recv, &wire.secured, seq) {
+                        Outcome::Delivered(_) => {
+                            t.baseline_ok += 1;
+                            rep.count("current_token_chunk_of_the_peer_delivered_on_renewed_channel", 1);
+                        }
+                        other => {
+                            t.baseline_broken += 1;
+                            let why = match other {
+                                Outcome::Rejected(s, e) => format!("{} {}", s, e),
+                                Outcome::Panicked(p) => format!("panic {}", p.msg),
+                                _ => String::new(),
+                            };
+                            fail(rep, format!("{:?} after {} renewal(s): an untouched chunk of the peer under the current token was not accepted ({}); the later states cannot be reached", step, renewals, why));
+                            break 'steps;
+                        }
+                    }
+                    view.unsuperseded.clear();
+                    if let Err(e) = record_sends(&mut pair, &mut recs, &msgs) {
+                        fail(rep, e);
+                        break 'steps;
+                    }
+                    continue;
+                }
+                Step::Cases(stage) => {
+                    let issued: Vec<u32> = eras.iter().map(|e| e.token).collect();
+                    // ---------------- everything recorded so far, to both ends
+                    for to_server in [true, false] {
+                        let (recv, role, receiver) = if to_server { (Recv::PairServer, "server-receives", "server") } else { (Recv::PairClient, "client-receives", "client") };
+                        let view = if to_server { &server_view } else { &client_view };
+                        for r in &recs {
+                            let reflected = r.from_client != to_server;
+                            let rel = token_relation(view, &issued, r.token);
+                            // a current-token chunk of the peer is the Use step of the history: taking it ends the validity
+                            // of the older tokens, so it is only presented where there is nothing left to end
+                            if !reflected && rel == "current-token" && !view.unsuperseded.is_empty() {
+                                continue;
+                            }
+                            let kind = if reflected { "renewed-reflected" } else { "renewed-replayed" };
+                            let case = mk_case(json!({"kind": kind, "history": history, "stage": stage, "receiver": receiver, "victim": r.name, "names_token": r.token, "relation": rel}));
+                            if mine(counter) && covers(only, &case) {
+                                rep.begin_case(&case);
+                                let o = deliver(g, &mut pair, recv, &r.secured, r.seq);
+                                rep.case(&format!("{}|{}|{}|{}|{}|{}|{}|{}", kind, history, stage, receiver, rel, r.name, pname(g.policy), mname(g.mode)));
+                                rep.sample(case.clone());
+                                let mtype = if r.name == "clo" { "CLO" } else { "MSG" };
+                                if reflected {
+                                    record(rep, t, g, r.name, mtype, &format!("reflected-chunk-delivered|{}", rel), o, &case, role);
+                                } else {
+                                    match rel {
+                                        "current-token" => {
+                                            if matches!(o, Outcome::Delivered(_)) {
+                                                t.baseline_ok += 1;
+                                            } else {
+                                                t.baseline_broken += 1;
+                                            }
+                                        }
+                                        "superseded-token" => record(rep, t, g, r.name, mtype, "chunk-under-superseded-token-delivered", o, &case, role),
+                                        _ => {
+                                            // the peer's own chunk under a token that may still be valid: taking it is permitted
+                                            if matches!(o, Outcome::Delivered(_)) {
+                                                rep.count("older_token_chunk_of_the_peer_delivered_while_not_superseded", 1);
+                                            } else {
+                                                rep.count("older_token_chunk_of_the_peer_not_delivered_while_not_superseded", 1);
+                                            }
+                                        }
+                                    }
+                                }
+                            }
+                            // ---------------- the byte-level modifications on a chunk under an older, still admissible token
+                            let modify_here = !reflected && r.name == "msg-small" && rel == "previous-token-still-valid" && (thorough || stage == "renewed-once|new-token-unused");
+                            if modify_here {
+                                let vic = Victim {
+                                    name: r.name,
+                                    mtype: "MSG",
+                                    secured: r.secured.clone(),
+                                    target: 0,
+                                    recv,
+                                    seq: r.seq,
+                                };
+                                let baseline = matches!(deliver(g, &mut pair, recv, &r.secured, r.seq), Outcome::Delivered(_));
+                                let v = &vic.secured[0];
+                                let regs = regions(v, g.policy, g.mode, 0);
+                                for m in &enumerate_mutations(&vic, g, &mut rng, thorough) {
+                                    let mut case = mk_case(json!({"kind": "renewed-modified", "history": history, "stage": stage, "receiver": receiver, "victim": r.name, "names_token": r.token, "relation": rel, "mutation": m}));
+                                    if !mine(counter) || !covers(only, &case) {
+                                        continue;
+                                    }
+                                    let Some(bytes) = apply_mutation(v, m, (g.nonce_seed as u8) ^ (ju64(m, "n") as u8)) else {
+                                        continue;
+                                    };
+                                    case["bytes"] = json!(hex(&bytes));
+                                    rep.begin_case(&case);
+                                    let o = deliver(g, &mut pair, recv, &[bytes], r.seq);
+                                    let region = match jstr(m, "m") {
+                                        "xor" | "bit" | "remove" | "insert" => region_of(&regs, ju64(m, "pos") as usize),
+                                        _ => "-",
+                                    };
+                                    rep.case(&format!(
+                                        "renewed-modified|{}|{}|{}|{}|{}|{}|{}",
+                                        stage,
+                                        receiver,
+                                        pname(g.policy),
+                                        mname(g.mode),
+                                        jstr(m, "m"),
+                                        region,
+                                        if baseline { "" } else { "untouched-not-taken" }
+                                    ));
+                                    rep.sample(case.clone());
+                                    record(rep, t, g, r.name, "MSG", &format!("modified-chunk-delivered|{}|{}", jstr(m, "m"), rel), o, &case, role);
+                                }
+                            }
+                        }
+                        // ---------------- foreign senders: every token id under every key set
+                        let mut named: Vec<u32> = issued.clone();
+                        let top = *issued.iter().max().unwrap_or(&0);
+                        for x in [0u32, issued[0].wrapping_sub(1), top + 1, top + 1000, u32::MAX] {
+                            if !named.contains(&x) {
+                                named.push(x);
+                            }
+                        }
+                        let unrelated = (rng.bytes(n), rng.bytes(n));
+                        let sender_role = || if to_server { Role::Client } else { Role::Server };
+                        // (label, era the keys belong to, client nonce, server nonce, the receiver's own keys?)
+                        let mut key_sets: Vec<(String, Option<u32>, &[u8], &[u8], bool)> = vec![("keys-of-unrelated-nonces".to_string(), None, &unrelated.0, &unrelated.1, false)];
+                        for e in &eras {
+                            let rel = token_relation(view, &issued, e.token);
+                            key_sets.push((format!("peer-keys-of-{}", rel), Some(e.token), &e.client_nonce, &e.server_nonce, false));
+                            key_sets.push((format!("own-keys-of-{}", rel), Some(e.token), &e.client_nonce, &e.server_nonce, true));
+                        }
+                        let fmsgs = if thorough { &msgs[..] } else { &msgs[..1] };
+                        for (klabel, kera, cn, sn, own) in &key_sets {
+                            for tok in &named {
+                                if !*own && *kera == Some(*tok) {
+                                    // the peer's keys of a token under that token's id: that is the peer's genuine chunk
+                                    continue;
+                                }
+                                let nrel = token_relation(view, &issued, *tok);
+                                for (name, msg, cs) in fmsgs {
+                                    let case = mk_case(json!({"kind": "renewed-foreign-keys", "history": history, "stage": stage, "receiver": receiver, "victim": name, "names_token": tok, "relation": nrel, "keys": klabel, "keys_of_token": kera}));
+                                    if !mine(counter) || !covers(only, &case) {
+                                        continue;
+                                    }
+                                    rep.begin_case(&case);
+                                    // the sender's local keys are derived from (secret = remote nonce, seed = local nonce)
+                                    let (local, remote) = match (to_server, *own) {
+                                        (true, false) | (false, true) => (*cn, *sn),
+                                        _ => (*sn, *cn),
+                                    };
+                                    let seq = 77;
+                                    let wire = match catch(|| {
+                                        let sender = keyed_sender(g, sender_role(), channel_id, *tok, local, remote);
+                                        send_message(&sender, seq, 5, *cs, msg)
+                                    }) {
+                                        Ok(Ok(w)) => w,
+                                        _ => {
+                                            rep.inconclusive(format!("C08: a foreign sender with {} cannot secure {}", klabel, name));
+                                            continue;
+                                        }
+                                    };
+                                    if parse_hdr(&wire.secured[0]).and_then(|h| h.token_id) != Some(*tok) {
+                                        rep.inconclusive("C08: the foreign sender did not name the token id it was given");
+                                        continue;
+                                    }
+                                    let o = deliver(g, &mut pair, recv, &wire.secured, seq);
+                                    rep.case(&format!("renewed-foreign-keys|{}|{}|{}|{}|names-{}|{}|{}|{}", history, stage, receiver, klabel, nrel, name, pname(g.policy), mname(g.mode)));
+                                    rep.sample(case.clone());
+                                    let mtype = if *name == "clo" { "CLO" } else { "MSG" };
+                                    record(rep, t, g, name, mtype, &format!("foreign-keys-chunk-delivered|{}|names-{}", klabel, nrel), o, &case, role);
+                                }
+                            }
+                        }
+                    }
+                }
+            }
+        }
+    }
+}
+
 pub fn c08(args: &Args, rep: &mut Report) {
     let ids = Idents::new();
     let mut t = Tally {
@@ -929,6 +1405,7 @@ pub fn c08(args: &Args, rep: &mut Report) {
                     ids: &ids,
                 };
                 run_group(args, rep, &mut t, &g, &mut counter, Some(&case));
+                run_renewed(args, rep, &mut t, &g, &mut counter, Some(&case));
                 if rep.evaluations == 0 {
                     rep.inconclusive("replay case not found among the regenerated cases");
                 }
@@ -956,6 +1433,7 @@ pub fn c08(args: &Args, rep: &mut Report) {
                     ids: &ids,
                 };
                 run_group(args, rep, &mut t, &g, &mut counter, None);
+                run_renewed(args, rep, &mut t, &g, &mut counter, None);
             }
         }
     }
